@@ -10,6 +10,7 @@ import (
 	"encoding/json"
 	"fmt"
 	"math/big"
+	"math/rand"
 	"os"
 
 	"github.com/idena-network/idena-go/common"
@@ -49,6 +50,48 @@ func c13sBal(s *state.StateDB, k int) string {
 	return "val " + b.String()
 }
 
+// c13sRichWrites touches every kind of state object through the exported setters: identities, stakes, contract
+// deployments (embedded and wasm code), contract store values, global parameters, burnt coins, delegations, registry.
+func c13sRichWrites(a *appstate.AppState, r *rand.Rand, height int) {
+	s := a.State
+	for j, n := 0, 1+r.Intn(6); j < n; j++ {
+		ad := common.Address{0x88, byte(r.Intn(6))}
+		switch r.Intn(14) {
+		case 0:
+			s.SetState(ad, state.IdentityState(1+r.Intn(8)))
+		case 1:
+			s.AddStake(ad, big.NewInt(int64(r.Intn(100))))
+		case 2:
+			code := make([]byte, 8+r.Intn(24))
+			r.Read(code)
+			s.DeployWasmContract(common.Address{0x99, byte(r.Intn(4))}, code)
+		case 3:
+			s.DeployContract(common.Address{0x9a, byte(r.Intn(4))}, common.Hash{byte(r.Intn(5))}, big.NewInt(int64(r.Intn(50))))
+		case 4:
+			s.SetContractValue(common.Address{0x99, byte(r.Intn(4))}, []byte{byte(r.Intn(5))}, []byte{byte(r.Intn(200)), 1})
+		case 5:
+			s.SetNonce(ad, uint32(r.Intn(9)))
+		case 6:
+			s.AddInvite(ad, 1)
+		case 7:
+			s.SetFeePerGas(big.NewInt(int64(10 + r.Intn(1000))))
+		case 8:
+			s.AddBurntCoins(uint64(height), ad, "k", big.NewInt(int64(1+r.Intn(9))))
+		case 9:
+			s.SetDelegatee(ad, common.Address{0x88, byte(r.Intn(6))})
+		case 10:
+			s.ToggleStatusSwitchAddress(ad)
+		case 11:
+			s.SetPenaltySeconds(ad, uint16(r.Intn(100)))
+		case 12:
+			a.IdentityState.SetValidated(ad, r.Intn(2) == 0)
+			a.IdentityState.SetOnline(ad, r.Intn(2) == 0)
+		default:
+			s.IncEpoch()
+		}
+	}
+}
+
 func c13sRun(c *hx.Ctx, cs c13sCase) error {
 	r := c.Rng
 	db := dbm.NewMemDB()
@@ -57,6 +100,14 @@ func c13sRun(c *hx.Ctx, cs c13sCase) error {
 		return err
 	}
 	if err := app.Initialize(0); err != nil {
+		return err
+	}
+	// twin: the same canonical writes and commits, but no view is ever opened on it
+	twin, err := appstate.NewAppState(dbm.NewMemDB(), eventbus.New())
+	if err != nil {
+		return err
+	}
+	if err := twin.Initialize(0); err != nil {
 		return err
 	}
 	keep := state.MaxSavedStatesCount
@@ -72,17 +123,32 @@ func c13sRun(c *hx.Ctx, cs c13sCase) error {
 			k := r.Intn(nKeys)
 			if r.Intn(5) == 0 {
 				app.State.SetBalance(c13sAddr(k), big.NewInt(0))
+				twin.State.SetBalance(c13sAddr(k), big.NewInt(0))
 				delete(cur, k)
 				c.Line(fmt.Sprintf("cset %d -", k), "ok")
 			} else {
 				v := int64(1 + r.Intn(1000))
 				app.State.SetBalance(c13sAddr(k), big.NewInt(v))
+				twin.State.SetBalance(c13sAddr(k), big.NewInt(v))
 				cur[k] = fmt.Sprint(v)
 				c.Line(fmt.Sprintf("cset %d %d", k, v), "ok")
 			}
 		}
+		// other kinds of canonical state (not modelled line by line; covered by the twin comparison)
+		if r.Intn(3) == 0 {
+			seedW := r.Int63()
+			c13sRichWrites(app, rand.New(rand.NewSource(seedW)), height)
+			c13sRichWrites(twin, rand.New(rand.NewSource(seedW)), height)
+		}
 		if err := app.Commit(nil); err != nil {
 			return err
+		}
+		if err := twin.Commit(nil); err != nil {
+			return err
+		}
+		if app.State.Root() != twin.State.Root() || app.IdentityState.Root() != twin.IdentityState.Root() {
+			fail("C13:view-work-leaked-into-canonical-commit", fmt.Sprintf("height %d: canonical root differs from a twin that received the same writes but never had views", height+1))
+			return nil
 		}
 		height++
 		c.Line("commit", fmt.Sprintf("ver %d", app.State.Version()))
@@ -123,6 +189,10 @@ func c13sRun(c *hx.Ctx, cs c13sCase) error {
 					}
 					k := r.Intn(nKeys)
 					c.Line(fmt.Sprintf("vget %d", k), c13sBal(view.State, k))
+					if r.Intn(2) == 0 {
+						c13sRichWrites(view, rand.New(rand.NewSource(r.Int63())), height+7)
+						c.Hit("view-rich-writes")
+					}
 					if r.Intn(2) == 0 {
 						view.Commit(nil) // the view commits on its own overlay
 						c.Hit("view-committed")
